@@ -139,50 +139,8 @@ func (e *engine) verifyFunc(fn *ssa.Function, blk *block) (res *fnResult) {
 		}
 	}
 
-	out := map[*ssa.BasicBlock]*state{}
-	edge := map[[2]*ssa.BasicBlock]string{}
 	fc.implBlocks = implBlocks
-	for _, b := range rpo(fn) {
-		var ins []inEdge
-		edgeIn := map[*ssa.BasicBlock]string{}
-		if b.Index == 0 {
-			ins = append(ins, inEdge{st: st, cond: "true"})
-		}
-		for _, p := range b.Preds {
-			if isBackEdge(p, b) {
-				continue
-			}
-			ps, ok := out[p]
-			if !ok {
-				continue
-			}
-			c := edge[[2]*ssa.BasicBlock{p, b}]
-			ins = append(ins, inEdge{st: ps, cond: c})
-			edgeIn[p] = c
-		}
-		if len(ins) == 0 {
-			continue
-		}
-		cur := fc.merge(ins)
-		if ord, isHdr := fc.loopsOf[b]; isHdr {
-			cur = fc.loopHead(b, ord, cur)
-		}
-		conds := fc.execBlock(b, cur, edgeIn)
-		if conds == nil {
-			continue
-		}
-		out[b] = cur
-		for k, s := range b.Succs {
-			c := fc.def("Bool", conds[k])
-			if isBackEdge(b, s) {
-				bs := cur.clone()
-				bs.pc = c
-				fc.assertInv(s, fc.loopsOf[s], bs, "preserve")
-				continue
-			}
-			edge[[2]*ssa.BasicBlock{b, s}] = c
-		}
-	}
+	fc.runCFG(fn, st)
 	// every at-clause must have matched at least one site (vacuity guard i)
 	for _, c := range blk.clauses {
 		if strings.HasPrefix(c.kind, "at-") && fc.anchorsHit[c] == 0 && !strings.HasPrefix(c.label, "opt:") {
@@ -616,6 +574,10 @@ func (fc *fnCtx) heapVarsOfModifies(lv, callee string) []string {
 
 // execReturn: postconditions, exit assertions, interface contracts, frame.
 func (fc *fnCtx) execReturn(st *state, r *ssa.Return) {
+	if fc.retHook != nil {
+		fc.retHook(st, r)
+		return
+	}
 	bind := map[string]Val{}
 	for k, v := range fc.params {
 		bind[k] = v
@@ -812,4 +774,128 @@ func (fc *fnCtx) anchorMayFireIn(blocks map[*ssa.BasicBlock]bool, anchor string)
 		}
 	}
 	return false
+}
+
+// runCFG executes the (loop-cut, acyclic) control-flow graph of fn from state st.
+func (fc *fnCtx) runCFG(fn *ssa.Function, st *state) {
+	out := map[*ssa.BasicBlock]*state{}
+	edge := map[[2]*ssa.BasicBlock]string{}
+	for _, b := range rpo(fn) {
+		var ins []inEdge
+		edgeIn := map[*ssa.BasicBlock]string{}
+		if b.Index == 0 {
+			ins = append(ins, inEdge{st: st, cond: st.pc})
+		}
+		for _, p := range b.Preds {
+			if isBackEdge(p, b) {
+				continue
+			}
+			ps, ok := out[p]
+			if !ok {
+				continue
+			}
+			c := edge[[2]*ssa.BasicBlock{p, b}]
+			ins = append(ins, inEdge{st: ps, cond: c})
+			edgeIn[p] = c
+		}
+		if len(ins) == 0 {
+			continue
+		}
+		cur := fc.merge(ins)
+		if ord, isHdr := fc.loopsOf[b]; isHdr {
+			cur = fc.loopHead(b, ord, cur)
+		}
+		conds := fc.execBlock(b, cur, edgeIn)
+		if conds == nil {
+			continue
+		}
+		out[b] = cur
+		for k, s := range b.Succs {
+			c := fc.def("Bool", conds[k])
+			if isBackEdge(b, s) {
+				bs := cur.clone()
+				bs.pc = c
+				fc.assertInv(s, fc.loopsOf[s], bs, "preserve")
+				continue
+			}
+			edge[[2]*ssa.BasicBlock{b, s}] = c
+		}
+	}
+}
+
+// inlineCall executes the body of a /repo function that has no contract in place of the call
+// (extract-method refactorings must not make a caller undecidable).  The caller's anchors apply
+// to the inlined instructions; loops of the callee have no invariant (what they modify is havocked).
+func (fc *fnCtx) inlineCall(st *state, callee *ssa.Function, args []Val) []Val {
+	if fc.inlineDepth >= 3 || len(callee.Blocks) == 0 {
+		unsup("call to %s has no contract (and cannot be inlined)", canonName(callee))
+	}
+	for _, f := range fc.inlineStack {
+		if f == callee {
+			unsup("recursive call to %s has no contract", canonName(callee))
+		}
+	}
+	fc.inlineDepth++
+	fc.inlineStack = append(fc.inlineStack, callee)
+	fc.notes = append(fc.notes, "inlined uncontracted callee "+canonName(callee))
+	for k, p := range callee.Params {
+		v := args[k]
+		v.Ty = p.Type()
+		fc.env[p] = v
+	}
+	for _, h := range loopHeaders(callee) {
+		if _, ok := fc.loopsOf[h]; !ok {
+			fc.loopsOf[h] = 0 // no invariant clauses
+		}
+	}
+	savedDefers := st.defers
+	savedHook := fc.retHook
+	savedBlock := fc.curBlock
+	entry := st.clone()
+	entry.defers = nil
+	type ret struct {
+		st   *state
+		vals []Val
+	}
+	var rets []ret
+	fc.retHook = func(rs *state, r *ssa.Return) {
+		var vals []Val
+		for _, x := range r.Results {
+			vals = append(vals, fc.val(x))
+		}
+		rets = append(rets, ret{rs.clone(), vals})
+	}
+	fc.runCFG(callee, entry)
+	fc.retHook = savedHook
+	fc.curBlock = savedBlock
+	fc.inlineDepth--
+	fc.inlineStack = fc.inlineStack[:len(fc.inlineStack)-1]
+	if len(rets) == 0 {
+		// the callee never returns (panics / loops forever): the code after the call is unreachable
+		st.pc = "false"
+		var vals []Val
+		for k := 0; k < callee.Signature.Results().Len(); k++ {
+			vals = append(vals, fc.freshVal(st, "nores", callee.Signature.Results().At(k).Type()))
+		}
+		return vals
+	}
+	var ins []inEdge
+	for _, r := range rets {
+		ins = append(ins, inEdge{st: r.st, cond: r.st.pc})
+	}
+	merged := fc.merge(ins)
+	// result values: ite over the return sites
+	n := callee.Signature.Results().Len()
+	vals := make([]Val, n)
+	for k := 0; k < n; k++ {
+		t := rets[len(rets)-1].vals[k].T
+		for i := len(rets) - 2; i >= 0; i-- {
+			t = fmt.Sprintf("(ite %s %s %s)", rets[i].st.pc, rets[i].vals[k].T, t)
+		}
+		vals[k] = Val{T: fc.def(rets[0].vals[k].S, t), S: rets[0].vals[k].S, Ty: callee.Signature.Results().At(k).Type()}
+	}
+	// continue in the caller with the merged state
+	*st = *merged
+	st.defers = savedDefers
+	return vals
 }
